@@ -183,6 +183,7 @@ fn run_burst(case: &Case) -> Verdict {
         t
     };
     let mut version = 1;
+    let mut disk_writes: u64 = 0;
     let mut outstanding: Vec<(i64, String)> = Vec::new();
     let mut opened = [false, false, false];
     let mut concurrent = false;
@@ -238,6 +239,16 @@ fn run_burst(case: &Case) -> Verdict {
                 if opened[d] {
                     c.notify("textDocument/didSave", json!({"textDocument": {"uri": uris[d]}}));
                 }
+            }
+            // another program rewrites a file of the workspace on disk (whether or not it is open as a document)
+            "disk-change" => {
+                disk_writes += 1;
+                let text = match d {
+                    0 => format!("{}// written by another program, {disk_writes}\n", doc_text(classes, disk_writes % 3)),
+                    1 => format!("class Base {{ int b = {disk_writes}; int c{disk_writes} = 0; }}\n"),
+                    _ => format!("class Other {{ int o{disk_writes} = 0; }}\n"),
+                };
+                tw.write(["root.td", "inc.td", "other.td"][d], &text);
             }
             "pause" => std::thread::sleep(Duration::from_micros(op[1].as_u64().unwrap_or(100).min(20_000))),
             // go on the moment the server starts publishing (its diagnostics task is then in the middle
@@ -549,6 +560,22 @@ impl Property for C08 {
                             let ops = json!([["open", 0], ["change", d], ["req", 0, r], ["change", 0], ["req", d, r]]);
                             if !emit(json!({"kind": "burst", "classes": classes, "ops": ops})) {
                                 return;
+                            }
+                        }
+                    }
+                    // a file changes on disk behind the server's back; a notification the server has nothing to do
+                    // for follows (whatever it does then with what it finds on disk, it goes on afterwards)
+                    for quiet in ["empty-change", "save", "close"] {
+                        for changed in 0..3 {
+                            for d in 0..2 {
+                                let ops = json!([["open", 0], ["open", 1], ["pause", 20000], ["disk-change", changed], [quiet, d], ["req", 0, "documentSymbol"], ["change", 0], ["req", 1, "hover"]]);
+                                if !emit(json!({"kind": "burst", "classes": classes, "ops": ops})) {
+                                    return;
+                                }
+                                let ops = json!([["open", 0], ["await-publish", 0], ["disk-change", changed], [quiet, 0], ["req", 0, "documentSymbol"], ["change", 0], ["req", 0, "hover"]]);
+                                if !emit(json!({"kind": "burst", "classes": classes, "ops": ops})) {
+                                    return;
+                                }
                             }
                         }
                     }
